@@ -30,7 +30,7 @@ CONSTANTS
 SYMMETRY Sym
 INVARIANTS
   TypeOK
-  I_SingleFlight I_BurstCostsOne I_NoEarlyRelease I_NoUntimelyPublish I_HitServed I_LabelTruth I_OnlyStoredIsShared I_KeyMatch
+  I_SingleFlight I_BurstCostsOne I_NoEarlyRelease I_NoUntimelyPublish I_StoreMatchesKey I_HitServed I_LabelTruth I_OnlyStoredIsShared I_KeyMatch
   I_HitFresh I_AgeTruth I_RefetchAfterExpiry I_HfpPass I_HfpNeverCached I_HfpLapses
   I_PurgeEffective I_NoOwnError
   D_FetchingHasOwner D_OneOwner D_WaitersOnlyWhileFetching D_WaiterAccounted D_NoImmortal D_HitHasResponse D_Resident D_NoUnlockedRead
